@@ -23,7 +23,7 @@ from engine.sym import Sym, CSym, as_sym, ctx, new_context, _vid, Cond, sym_arra
 from checks import simlib
 
 PID = "C03"
-OPS = ["A", "L", "G", "M", "D", "B"]
+OPS = ["A", "L", "G", "M", "D", "B", "I"]
 OP_DOC = {"A": "re-assemble with new symbols", "L": "add a Lagrange condition (changes Ndof)", "G": "a group stops/starts contributing to M (slot None)",
           "M": "replace the mesh", "D": "change dofs per node", "B": "a boundary group starts/stops contributing (user subclass)"}
 
@@ -51,6 +51,22 @@ def fresh_mats(simu, tag, complex_=False, drop_M=(), F_flat=False):
         M = None if g.elemType in drop_M else arr("M", (g.Ne, nd, nd))
         F = arr("F", (g.Ne, nd) if F_flat else (g.Ne, nd, 1))
         simu.mats[g.elemType] = (K, C, M, F)
+
+
+def inplace_mats(simu, tag, complex_=False):
+    """operation 'I': the element arrays handed out at the previous assembly are UPDATED IN PLACE with fresh symbols (same ndarray objects,
+    new values) - what a user subclass that keeps its element arrays does between two assemblies"""
+    for et, mats in simu.mats.items():
+        for name, X in zip("KCMF", mats):
+            if X is None:
+                continue
+            a = sym_array(f"{tag}{et}{name}", X.shape)
+            if complex_:
+                b = sym_array(f"{tag}{et}{name}i", X.shape)
+                for idx in np.ndindex(*X.shape):
+                    X[idx] = CSym(a[idx], b[idx])
+            else:
+                X[...] = a
 
 
 def oracle(simu, Ndof):
@@ -153,6 +169,12 @@ def concrete_replay(cfg):
             apply_op(simu, state, op, k, cfg)
             groups = simu.groups if simu.groups is not None else simu.mesh.Get_list_groupElem()
             dof_n = simu.Get_dof_n()
+            if op == "I":
+                for et, mats_ in simu.mats.items():
+                    for X in mats_:
+                        if X is not None:
+                            X[...] = rng.uniform(-1, 1, X.shape) + (1j * rng.uniform(-1, 1, X.shape) if cfg.get("complex") else 0)
+                groups = []
             for g in groups:
                 nd = g.nPe * dof_n
                 mk = lambda sh: rng.uniform(-1, 1, sh) + (1j * rng.uniform(-1, 1, sh) if cfg.get("complex") else 0)
@@ -183,7 +205,7 @@ def build(cfg):
 def apply_op(simu, state, op, k, cfg):
     from EasyFEA.FEM._boundary_conditions import LagrangeCondition
 
-    if op == "A":
+    if op in ("A", "I"):
         pass
     elif op == "L":
         pt = simu.problemType
@@ -292,7 +314,10 @@ def job(cfg):
 
     for k, op in enumerate(steps):
         apply_op(simu, state, op, k, cfg)
-        fresh_mats(simu, f"s{k}_", complex_=cfg.get("complex", False), drop_M=state["drop_M"], F_flat=(k % 2 == 1))
+        if op == "I":
+            inplace_mats(simu, f"s{k}_", complex_=cfg.get("complex", False))
+        else:
+            fresh_mats(simu, f"s{k}_", complex_=cfg.get("complex", False), drop_M=state["drop_M"], F_flat=(k % 2 == 1))
         simu.Need_Update()
         compare(res, simu, f"{label0} [{''.join(steps[:k + 1])}]", replay, complex_=cfg.get("complex", False))
     res.symbols = len(ctx().names)
